@@ -61,10 +61,12 @@ thread_local! {
 
 /// `read_storage`, its alias `read_component`, or the system-data route
 fn rd<T: Component>(world: &World) -> ReadStorage<'_, T> {
-    match ALT.with(|a| a.get()) % 3 {
+    match ALT.with(|a| a.get()) % 4 {
         0 => world.read_storage::<T>(),
         1 => world.read_component::<T>(),
-        _ => world.system_data::<ReadStorage<T>>(),
+        2 => world.system_data::<ReadStorage<T>>(),
+        // a second handle cloned from the first
+        _ => world.read_storage::<T>().clone(),
     }
 }
 
